@@ -332,14 +332,18 @@ func (s *state) evalPrint(node *ast.PrintNode) {
 	var escapeHtml = s.autoescape != ast.AutoescapeOff
 	var result = s.val
 
+	// The obligatory directives are added to a list local to this call: the
+	// node belongs to the compiled bundle, which is shared by every render
+	// (and by concurrent renders), and must not be modified.
+	var directives = node.Directives[:len(node.Directives):len(node.Directives)]
 	for _, directiveName := range ObligatoryPrintDirectiveNames {
-		node.Directives = append(node.Directives, &ast.PrintDirectiveNode{
+		directives = append(directives, &ast.PrintDirectiveNode{
 			Pos:  node.Position(),
 			Name: directiveName,
 		})
 	}
 
-	for _, directiveNode := range node.Directives {
+	for _, directiveNode := range directives {
 		var directive, ok = PrintDirectives[directiveNode.Name]
 		if !ok {
 			s.errorf("Print directive %q does not exist", directiveNode.Name)
